@@ -416,7 +416,7 @@ class Body:
             return "~"
         b, i, kind, payload = sd
         if kind == "call":
-            return self.canon_call(payload, depth + 1)
+            return self.canon_call(payload, depth + 1, b)
         return self.canon_rv(payload, depth + 1)
 
     def canon_place(self, pl, depth=0):
@@ -464,7 +464,10 @@ class Body:
             return self.canon_op(rv["a"], depth)
         if k == "bin":
             op = rv["op"].replace("WithOverflow", "").replace("Unchecked", "")
-            return "%s(%s, %s)" % (op, self.canon_op(rv["a"], depth), self.canon_op(rv["b"], depth))
+            a, b = self.canon_op(rv["a"], depth), self.canon_op(rv["b"], depth)
+            if op in ("Add", "Mul", "BitAnd", "BitOr", "BitXor", "Eq", "Ne") and b < a:
+                a, b = b, a          # commutative: one spelling
+            return "%s(%s, %s)" % (op, a, b)
         if k == "un":
             return "%s(%s)" % (rv["op"], self.canon_op(rv["a"], depth))
         if k == "ref":
@@ -479,11 +482,14 @@ class Body:
             return "[%s; %s]" % (self.canon_op(rv["a"], depth), rv.get("n"))
         return k
 
-    def canon_call(self, t, depth=0):
+    def canon_call(self, t, depth=0, blk=None):
         nm = callee_short(t["callee"])
         if nm in self._TRANSPARENT and t["args"]:
             return self.canon_op(t["args"][0], depth)
-        return "%s(%s)" % (nm, ", ".join(self.canon_op(a, depth) for a in t["args"]))
+        s = "%s(%s)" % (nm, ", ".join(self.canon_op(a, depth) for a in t["args"]))
+        if getattr(self, "_cids", False) and blk is not None:
+            s += "@b%d" % blk        # identity of the call site (etrace): two calls of one function are different values
+        return s
 
     # ---- iteration helpers ----------------------------------------------------
     def calls(self, reachable_only=True):
